@@ -242,26 +242,36 @@ fn check_subset(s: &Subset) -> Result<(), String> {
 
 /// A foreign (independently laid out) archive with genuinely large stored zero-run entries.
 fn foreign_large(sizes: &[u64]) -> (Shared<SparseFile>, Vec<(String, u64, u32, u64)>) {
+    let pairs: Vec<(u64, u64)> = sizes.iter().map(|s| (*s, *s)).collect();
+    let (f, e) = foreign_large2(&pairs);
+    (f, e.into_iter().map(|(n, u, _c, crc, off)| (n, u, crc, off)).collect())
+}
+
+/// entries given as (uncompressed size, compressed size); method 0 when equal, 8 otherwise (the
+/// payload is a zero run: not a valid deflate stream, it is never decoded)
+fn foreign_large2(sizes: &[(u64, u64)]) -> (Shared<SparseFile>, Vec<(String, u64, u64, u32, u64)>) {
     let f = Shared::new(SparseFile::new());
     let mut expect = Vec::new();
     let mut central = Vec::new();
     {
         let mut g = f.0.lock().unwrap();
-        for (i, &size) in sizes.iter().enumerate() {
+        for (i, &(size, csize)) in sizes.iter().enumerate() {
             let name = format!("big{i}.bin");
             let off = g.pos;
             let crc = crc_zeros(size);
-            let big = size >= 0xFFFF_FFFF;
+            let big = size >= 0xFFFF_FFFF || csize >= 0xFFFF_FFFF;
+            let method: u16 = if size == csize { 0 } else { 8 };
             let mut h = Vec::new();
             h.extend_from_slice(&0x04034b50u32.to_le_bytes());
             h.extend_from_slice(&45u16.to_le_bytes());
             h.extend_from_slice(&0u16.to_le_bytes());
-            h.extend_from_slice(&0u16.to_le_bytes());
+            h.extend_from_slice(&method.to_le_bytes());
             h.extend_from_slice(&0u16.to_le_bytes());
             h.extend_from_slice(&0x21u16.to_le_bytes());
             h.extend_from_slice(&crc.to_le_bytes());
             let s32 = if big { 0xFFFFFFFFu32 } else { size as u32 };
-            h.extend_from_slice(&s32.to_le_bytes());
+            let c32 = if big { 0xFFFFFFFFu32 } else { csize as u32 };
+            h.extend_from_slice(&c32.to_le_bytes());
             h.extend_from_slice(&s32.to_le_bytes());
             h.extend_from_slice(&(name.len() as u16).to_le_bytes());
             h.extend_from_slice(&(if big { 20u16 } else { 0 }).to_le_bytes());
@@ -270,17 +280,17 @@ fn foreign_large(sizes: &[u64]) -> (Shared<SparseFile>, Vec<(String, u64, u32, u
                 h.extend_from_slice(&1u16.to_le_bytes());
                 h.extend_from_slice(&16u16.to_le_bytes());
                 h.extend_from_slice(&size.to_le_bytes());
-                h.extend_from_slice(&size.to_le_bytes());
+                h.extend_from_slice(&csize.to_le_bytes());
             }
             g.write_all(&h).unwrap();
-            let p = g.pos + size;
+            let p = g.pos + csize;
             g.seek(SeekFrom::Start(p)).unwrap();
             g.len = g.len.max(p);
             // central record
             let mut z = Vec::new();
             if big {
                 z.extend_from_slice(&size.to_le_bytes());
-                z.extend_from_slice(&size.to_le_bytes());
+                z.extend_from_slice(&csize.to_le_bytes());
             }
             let off_big = off >= 0xFFFF_FFFF;
             if off_big {
@@ -291,11 +301,11 @@ fn foreign_large(sizes: &[u64]) -> (Shared<SparseFile>, Vec<(String, u64, u32, u
             c.extend_from_slice(&((3u16 << 8) | 45).to_le_bytes());
             c.extend_from_slice(&45u16.to_le_bytes());
             c.extend_from_slice(&0u16.to_le_bytes());
-            c.extend_from_slice(&0u16.to_le_bytes());
+            c.extend_from_slice(&method.to_le_bytes());
             c.extend_from_slice(&0u16.to_le_bytes());
             c.extend_from_slice(&0x21u16.to_le_bytes());
             c.extend_from_slice(&crc.to_le_bytes());
-            c.extend_from_slice(&s32.to_le_bytes());
+            c.extend_from_slice(&c32.to_le_bytes());
             c.extend_from_slice(&s32.to_le_bytes());
             c.extend_from_slice(&(name.len() as u16).to_le_bytes());
             c.extend_from_slice(&(if z.is_empty() { 0u16 } else { 4 + z.len() as u16 }).to_le_bytes());
@@ -309,7 +319,7 @@ fn foreign_large(sizes: &[u64]) -> (Shared<SparseFile>, Vec<(String, u64, u32, u
                 c.extend_from_slice(&z);
             }
             central.push(c);
-            expect.push((name, size, crc, off));
+            expect.push((name, size, csize, crc, off));
         }
         let cd_start = g.pos;
         for c in &central {
@@ -370,6 +380,44 @@ fn check_foreign_large(sizes: &[u64]) -> Result<(), String> {
         if total != *size {
             return Err(format!("entry {name}: read {total} bytes, expected {size}"));
         }
+    }
+    Ok(())
+}
+
+/// new_append onto a foreign ZIP64 archive whose entries have sizes/offsets beyond 4 GiB (and
+/// uncompressed != compressed), add one small entry, finish: every value must survive.
+fn check_append_large(sizes: &[(u64, u64)]) -> Result<(), String> {
+    let (f, expect) = foreign_large2(sizes);
+    {
+        let mut rw = f.clone();
+        rw.seek(SeekFrom::Start(0)).map_err(|e| e.to_string())?;
+        let mut w = std::mem::ManuallyDrop::new(ZipWriter::new_append(rw).map_err(|e| format!("new_append refuses a well-formed ZIP64 archive: {e}"))?);
+        w.start_file("appended.txt", opts(8, false)).map_err(|e| format!("start_file: {e}"))?;
+        w.write_all(b"appended after > 4 GiB").map_err(|e| format!("write: {e}"))?;
+        w.finish().map_err(|e| format!("finish: {e}"))?;
+    }
+    let p = parse::parse(&f, parse::Opts { lenient: true, allow_leading_gap: true, decode_limit: 0, allow_trailing: true }).map_err(|e| format!("independent parser rejects the appended ZIP64 archive: {e}"))?;
+    if p.entries.len() != expect.len() + 1 {
+        return Err(format!("parser sees {} entries, expected {}", p.entries.len(), expect.len() + 1));
+    }
+    let mut rd = f.clone();
+    rd.seek(SeekFrom::Start(0)).map_err(|e| e.to_string())?;
+    let mut za = zip::ZipArchive::new(rd).map_err(|e| format!("the crate cannot reopen the appended archive: {e}"))?;
+    for (i, (name, us, cs, crc, off)) in expect.iter().enumerate() {
+        let e = &p.entries[i];
+        if e.usize_ != *us || e.csize != *cs || e.header_start != *off || e.crc != *crc {
+            return Err(format!("after append, entry {name}: independent parser recovers usize {} csize {} offset {}, expected {us} / {cs} / {off}", e.usize_, e.csize, e.header_start));
+        }
+        let fz = za.by_index_raw(i).map_err(|e| format!("by_index_raw({i}): {e}"))?;
+        if fz.size() != *us || fz.compressed_size() != *cs || fz.header_start() != *off {
+            return Err(format!("after append, entry {name}: reader reports usize {} csize {} offset {}, expected {us} / {cs} / {off}", fz.size(), fz.compressed_size(), fz.header_start()));
+        }
+    }
+    let mut last = za.by_index(expect.len()).map_err(|e| format!("appended entry: {e}"))?;
+    let mut v = Vec::new();
+    last.read_to_end(&mut v).map_err(|e| format!("appended entry read: {e}"))?;
+    if v != b"appended after > 4 GiB" {
+        return Err("appended entry content differs".into());
     }
     Ok(())
 }
@@ -499,6 +547,16 @@ pub fn run(ctx: &mut Ctx) {
     ctx.enumerate::<FL>("foreign_large", fl.len() as u64, &|i| FL(fl[i as usize].clone()), &|f: &FL, info: &mut Info| {
         info.nontrivial = true;
         match catch(|| check_foreign_large(&f.0)) {
+            Ok(r) => Verdict::from_result(r),
+            Err(p) => Verdict::Fail(format!("PANIC: {p}")),
+        }
+    });
+    #[derive(Clone, Debug, Serialize, Deserialize, Hash)]
+    struct AL(Vec<(u64, u64)>);
+    let al: Vec<Vec<(u64, u64)>> = ctx.q(vec![vec![(5 << 30, (9 << 30) / 2), (20, 20)]], vec![vec![(5 << 30, (9 << 30) / 2), (20, 20)], vec![(7, 7), (G + 3, G + 1), (G - 1, G + 9)], vec![(G, 100), (100, 100)], vec![(300, G + 2)]]);
+    ctx.enumerate::<AL>("append_large", al.len() as u64, &|i| AL(al[i as usize].clone()), &|a: &AL, info: &mut Info| {
+        info.nontrivial = true;
+        match catch(|| check_append_large(&a.0)) {
             Ok(r) => Verdict::from_result(r),
             Err(p) => Verdict::Fail(format!("PANIC: {p}")),
         }
